@@ -230,6 +230,9 @@ func c20SupplierWrappers(p *Prog, l *Ledger) {
 		if _, isSig := f.Params[0].Type().Underlying().(*types.Signature); !isSig {
 			continue
 		}
+		if f.TypeParams().Len() > 0 && len(f.TypeArgs()) == 0 {
+			continue // the body of a generic helper: its instances are what runs
+		}
 		n++
 		var bad []string
 		var closures []*ssa.Function
